@@ -46,6 +46,8 @@ def _tx_key(eng, x, st):
 
 # level / notes per property; functions and lemmas come from the props tags on the contracts
 PROPS = {
+    'C02': dict(level='proof', explanation="value post-conditions of the validators and of the unspent-set appliers"),
+    'C03': dict(level='proof', explanation="whole-view post-condition of add_block_no_validation; appliers as functions"),
     'C04': dict(level='proof',
                 explanation="whole-view post-condition of CoinState.add_block_no_validation proved from source; lemma "
                             "C04.fork-choice: the representation invariant (ids, tree, head = first-seen of greatest height, "
